@@ -50,6 +50,28 @@ CHECKS = {
              note=_TB + ' IEEE-754 binary64 error analysis in the float proxy (u=2^-53); float(str) correctly rounded; marks on the 0.01 grid; '
                   'text shapes bounded in length (listed per unit).',
              technique='contract-based deductive verification: symbolic execution with float proxy (exact affine value + certified error) -> LIA -> z3; ground table obligations'),
+ 'C01': dict(category='proof',
+             text='(A) for all marks and all ages at once (symbolic): the rounding stage of score() = exact ceil/floor(k*F) in centi-units '
+                  '(float-robustness decided exactly), age-band factor = table entry (1 below 35), guard consistent, the power stage applied to '
+                  'that centi-mark with the row coefficients (term equality), no exception; (B) the power stage evaluated on EVERY centi-mark of '
+                  'every row (3.4 M, complete) against the exact integer characterisation; coefficients = pinned official table. (A)+(B) cover the domain.',
+             note=_TB + ' IEEE-754 error analysis in the float proxy; the ground stage is complete evaluation (backend ground-evaluation), so no '
+                  'assumption on libm pow remains; reading: with an age, events absent from the age table may refuse with ValueError.',
+             technique='contract-based deductive verification (symbolic execution + float proxy -> z3) composed with complete ground evaluation of the power stage'),
+ 'C09': dict(category='other',
+             text='Ground-complete: for every row x every integer target -10..1500 the real performance() result k satisfies S(k) >= target and '
+                  'S(next worse) < target in exact integer arithmetic (72 528 obligations), plus symbolic exception-freedom and None for unknown '
+                  'pairs. Not SMT-proved (inverse power has no theory): level other.',
+             note=_TB + ' Depends on C01 (score = exact formula); coefficients pinned.',
+             technique='postcondition of performance() checked as complete ground obligations (exact integer arithmetic) + symbolic exploration for exceptions'),
+ 'C05': dict(category='other',
+             text='Table/linear systems: f = exact spec on every centi-mark (C11 obligations re-discharged from the real code) + z3 lemmas over two '
+                  'symbolic marks that each spec is monotone, within bounds, and Tyrving manual <= automatic; combined events: rounding stage exact for '
+                  'every age band (C01 obligations) + lemma ceil/floor(k*F) monotone + every adjacent pair of the power-stage grid; Hungarian and '
+                  'Bulgarian: every adjacent grid pair of every row through the real function (complete ground evaluation). Level other: part is '
+                  'ground evaluation and one known finding (Bulgarian U16F600) stays refuted.',
+             note=_TB + ' Hungarian range as the property defines it (timed <= zero point, field where the formula >= 0).',
+             technique='contract-based deductive verification (equality with exact spec + relational z3 lemmas on the spec) and complete ground adjacency sweeps'),
 }
 _NYB = 'check not built yet in this build round (planned, see DESIGN.md §5); no claim is made'
-NOT_APPLICABLE = {p: _NYB for p in ['C01','C02','C03','C05','C07','C08','C09','C10','C12','C14','C15','C16','C18']}
+NOT_APPLICABLE = {p: _NYB for p in ['C02','C03','C07','C08','C10','C12','C14','C15','C16','C18']}
